@@ -63,7 +63,15 @@ def build_expr(af, e, pool):
             setattr(m, name, build_expr(af, sub, pool))
         return m
     if t == "coll":
-        items = [(k, build_expr(af, sub, pool)) for k, sub in e["items"]]
+        items = []
+        for k, sub in e["items"]:
+            if sub["t"] == "copy":
+                m = items[sub["of"]][1].copy()
+                for arg, newc in sub["set"]:
+                    setattr(m, arg, build_expr(af, newc, pool))
+                items.append((k, m))
+            else:
+                items.append((k, build_expr(af, sub, pool)))
         form = e["form"]
         if form == "list":
             return af.Collection([v for _, v in items])
